@@ -265,3 +265,34 @@ package decoder
 //@   loop 0: decreases numCodewords - i
 //@   loop 1: invariant 0 <= i && i <= numDataCodewords && len(codewordsInts) == numCodewords && (forall k int :: 0 <= k && k < i ==> codewordBytes[k] == byte(codewordsInts[k])) && (forall k int :: i <= k && k < len(codewordBytes) ==> codewordBytes[k] == old(codewordBytes[k]))
 //@   loop 1: decreases numDataCodewords - i
+
+// ---------------------------------------------------------------- Kanji mode (ISO/IEC 18004 8.4.5), C01 / C15
+// a 13-bit group v stands for the Shift JIS character a + 0x8140 or a + 0xC140, where a = (v div 0xC0) * 0x100 + v mod 0xC0
+// and the first form applies when a < 0x1F00; the encoder subtracts 0x8140 (codes 0x8140..0x9FFC) or 0xC140 (0xE040..0xEBBF)
+// and packs hi*0xC0 + lo. The two maps are inverse on every double-byte code with a trail byte 0x40..0xFC.
+//@ spec func kanjiDec(v int) int = ((v / 192) * 256 + v % 192) < 7936 ? ((v / 192) * 256 + v % 192) + 33088 : ((v / 192) * 256 + v % 192) + 49472
+//@ spec func kanjiEnc(c int) int = (((c >= 33088 && c <= 40956) ? c - 33088 : c - 49472) / 256) * 192 + ((c >= 33088 && c <= 40956) ? c - 33088 : c - 49472) % 256
+//@ lemma kanjiRoundTrip(c int)
+//@   property C01 C15
+//@   mode bv
+//@   requires ((c >= 33088 && c <= 40956) || (c >= 57408 && c <= 60351)) && c % 256 >= 64 && c % 256 <= 252
+//@   ensures 0 <= kanjiEnc(c) && kanjiEnc(c) < 8192 && kanjiDec(kanjiEnc(c)) == c
+// every 13-bit value decodes into the two Shift JIS double-byte lead ranges, and re-encodes to itself
+//@ lemma kanjiDecRange(v int)
+//@   property C01 C15
+//@   mode bv
+//@   requires 0 <= v && v < 8192 && v % 192 + 64 <= 255
+//@   ensures ((kanjiDec(v) >= 33088 && kanjiDec(v) <= 40956 + 3) || (kanjiDec(v) >= 57408 && kanjiDec(v) <= 60351 + 64)) && kanjiDec(v) % 256 >= 64
+
+// decodeKanjiSegment hands the Shift JIS decoder, for every 13-bit group read, the two bytes of kanjiDec(group):
+// lead byte 0x81..0x9F or 0xE0..0xEB, trail byte >= 0x40, 2*count bytes in all
+//@ func DecodedBitStreamParser_decodeKanjiSegment(bits *common.BitSource, result []byte, count int) (r []byte, e error)
+//@   property C01 C15 C06
+//@   mode bv
+//@   let count0 = old(count)
+//@   requires bits != nil && common.wfBS(bits) && len(bits.bytes) <= 1000000 && 0 <= count && count <= 100000 && common.StringUtils_SHIFT_JIS_CHARSET != nil
+//@   ensures (count * 13 > old(common.availBS(bits))) ==> e != nil
+//@   assert call(Append,0): offset == 2 * count0 && len(buffer) == 2 * count0 && (forall i int :: 0 <= i && i < offset && i % 2 == 0 ==> ((129 <= int(buffer[i]) && int(buffer[i]) <= 159) || (224 <= int(buffer[i]) && int(buffer[i]) <= 235)) && int(buffer[i+1]) >= 64)
+//@   loop 0: invariant 0 <= count && count <= count0 && 0 <= offset && offset + 2 * count == 2 * count0 && offset % 2 == 0 && len(buffer) == 2 * count0 && fresh(buffer) && common.wfBS(bits) && bits.bytes == old(bits.bytes)
+//@   loop 0: invariant forall i int :: 0 <= i && i < offset && i % 2 == 0 ==> ((129 <= int(buffer[i]) && int(buffer[i]) <= 159) || (224 <= int(buffer[i]) && int(buffer[i]) <= 235)) && int(buffer[i+1]) >= 64
+//@   loop 0: decreases count
